@@ -25,7 +25,7 @@ PLAN = {
     "thorough": {"shards": 16, "shard_timeout": 3600, "case_timeout": 30, "grammars": 300000, "max_case_timeouts": 30},
 }
 THRESHOLDS = {
-    "quick": {"symbols_compared": 8000, "grammars_compared": 1200, "usable_compared": 1000, "corpus_grammars": 5, "recursive_symbols_seen": 500, "unreachable_symbols_seen": 200, "kind:union": 100, "kind:tuple": 100, "kind:bool": 100, "expansion_grammars": 100},
+    "quick": {"symbols_compared": 8000, "grammars_compared": 1200, "usable_compared": 1000, "corpus_grammars": 5, "recursive_symbols_seen": 500, "unreachable_symbols_seen": 200, "kind:union": 100, "kind:tuple": 100, "kind:bool": 100, "expansion_grammars": 100, "sibling_grammars_compared": 3000},
     "thorough": {"symbols_compared": 300000, "grammars_compared": 50000, "usable_compared": 40000, "corpus_grammars": 5},
 }
 
@@ -224,6 +224,29 @@ def run_case(case, rec):
             return
         model, lo, hi = compare(desc["name"], built.classes, built.start, desc["expansion"], g, rec)
         check_usable(desc["name"], built.classes, built.start, desc["expansion"], g, rec)
+        # a second grammar over the SAME class objects (sub-language without the field-less productions, other depthing
+        # mode): the analysis must be a function of the grammar, not of anything remembered on the classes
+        drop = set()
+        for a in desc["abstracts"]:
+            prods = [p for p in desc["prods"] if p.get("parent") == a["name"]]
+            leaf = [p for p in prods if not p["fields"]]
+            if len(prods) >= 2 and leaf:
+                drop.add(leaf[0]["name"])
+        sub = [c for c in built.classes if c.__name__ not in drop]
+        from geneticengine.grammar.grammar import extract_grammar
+
+        for classes, exp, tag in ((sub, desc["expansion"], "sub-language"), (built.classes, not desc["expansion"], "other-depthing"), (built.classes, desc["expansion"], "again")):
+            if built.start not in classes and not refmodel.is_abs(built.start):
+                continue
+            try:
+                g2 = extract_grammar(classes, built.start, expansion_depthing=exp)
+            except core.CaseTimeout:
+                raise
+            except BaseException as e:  # noqa
+                rec.violation(f"extract:raises:{type(e).__name__}@{core.exc_site(e)}", {"grammar": desc["name"], "sibling": tag, "error": core.short(e)})
+                continue
+            rec.count("sibling_grammars_compared")
+            compare(f"{desc['name']}#{tag}", classes, built.start, exp, g2, rec, which="sibling")
         if case["i"] % 50 == 0:
             rec.sample({"grammar": desc["name"], "expansion": desc["expansion"], "start": built.start.__name__, "min_depth_library": g.get_min_tree_depth(), "min_depth_reference": sorted({lo[built.start], hi[built.start]}), "recursive": sorted(c.__name__ for c in model.recursive())})
     finally:
